@@ -52,92 +52,81 @@ impl InstructionGenerator {
             upper_bound,
             counter_var_name.expression_type(),
         );
-        // A to C (upper bound to C)
-        self.push(Instruction::CopyAToC, pos);
-        // load the step expression
         match step {
             Some(s) => {
                 let step_pos = s.pos();
-                // load 0 to B
-                self.push_load(Variant::VInteger(0), pos);
-                self.push(Instruction::CopyAToB, pos);
+                // keep the upper bound on the value stack while the step is evaluated,
+                // because evaluating an expression may use the registers
+                self.push(Instruction::PushAToValueStack, pos);
                 // load step to A
                 self.generate_expression_instructions(s);
                 // A to D (step is in D)
                 self.push(Instruction::CopyAToD, pos);
+                // upper bound to C
+                self.push(Instruction::PopValueStackIntoA, pos);
+                self.push(Instruction::CopyAToC, pos);
+                // is step = 0 ?
+                self.push_load(Variant::VInteger(0), pos);
+                self.push(Instruction::CopyAToB, pos);
+                self.push(Instruction::CopyDToA, pos);
+                self.push(Instruction::Equal, pos);
+                self.jump_if_false("for-loop", pos);
+                self.push(Instruction::Throw(RuntimeError::ForLoopZeroStep), step_pos);
+                // loop point: the sign of the step, which is only known at runtime,
+                // decides the comparison; the body is generated only once
+                self.label("for-loop", pos);
+                self.push_load(Variant::VInteger(0), pos);
+                self.push(Instruction::CopyAToB, pos);
+                self.push(Instruction::CopyDToA, pos);
                 // is step < 0 ?
                 self.push(Instruction::Less, pos);
-                self.jump_if_false("test-positive-or-zero", pos);
-                // negative step
-                self.generate_for_loop_instructions_positive_or_negative_step(
-                    &counter_var_name,
-                    statements.clone(),
-                    false,
-                    pos,
-                );
-                // jump out
-                self.jump("out-of-for", pos);
-                // PositiveOrZero: ?
-                self.label("test-positive-or-zero", pos);
-                // need to load it again into A because the previous "LessThan" op overwrote A
-                self.push(Instruction::CopyDToA, pos);
-                // is step > 0 ?
-                self.push(Instruction::Greater, pos);
-                self.jump_if_false("zero", pos);
-                // positive step
-                self.generate_for_loop_instructions_positive_or_negative_step(
-                    &counter_var_name,
-                    statements,
-                    true,
-                    pos,
-                );
-                // jump out
-                self.jump("out-of-for", pos);
-                // Zero step
-                self.label("zero", pos);
-                self.push(Instruction::Throw(RuntimeError::ForLoopZeroStep), step_pos);
+                self.jump_if_false("for-positive-step", pos);
+                // negative step: counter >= upper bound
+                self.push(Instruction::CopyCToB, pos);
+                self.load_counter(&counter_var_name, pos);
+                self.push(Instruction::GreaterOrEqual, pos);
+                self.jump_if_false("out-of-for", pos);
+                self.jump("for-body", pos);
+                // positive step: counter <= upper bound
+                self.label("for-positive-step", pos);
+                self.push(Instruction::CopyCToB, pos);
+                self.load_counter(&counter_var_name, pos);
+                self.push(Instruction::LessOrEqual, pos);
+                self.jump_if_false("out-of-for", pos);
+                self.label("for-body", pos);
+                self.generate_for_loop_body_and_increment(&counter_var_name, statements, pos);
+                // back to loop
+                self.jump("for-loop", pos);
                 self.label("out-of-for", pos);
             }
             None => {
+                // A to C (upper bound to C)
+                self.push(Instruction::CopyAToC, pos);
                 self.push_load(Variant::VInteger(1), pos);
                 // A to D (step is in D)
                 self.push(Instruction::CopyAToD, pos);
-                self.generate_for_loop_instructions_positive_or_negative_step(
-                    &counter_var_name,
-                    statements,
-                    true,
-                    pos,
-                );
+                // loop point
+                self.label("positive-loop", pos);
+                // upper bound from C to B
+                self.push(Instruction::CopyCToB, pos);
+                // counter to A
+                self.load_counter(&counter_var_name, pos);
+                self.push(Instruction::LessOrEqual, pos);
+                self.jump_if_false("out-of-for", pos);
+                self.generate_for_loop_body_and_increment(&counter_var_name, statements, pos);
+                // back to loop
+                self.jump("positive-loop", pos);
                 self.label("out-of-for", pos);
             }
         }
     }
 
-    fn generate_for_loop_instructions_positive_or_negative_step(
+    fn generate_for_loop_body_and_increment(
         &mut self,
         counter_var_name: &Expression,
         statements: Statements,
-        is_positive: bool,
         pos: Position,
     ) {
-        let loop_label = if is_positive {
-            "positive-loop"
-        } else {
-            "negative-loop"
-        };
-        // loop point
-        self.label(loop_label, pos);
-        // upper bound from C to B
-        self.push(Instruction::CopyCToB, pos);
-        // counter to A
-        self.load_counter(counter_var_name, pos);
-        if is_positive {
-            self.push(Instruction::LessOrEqual, pos);
-        } else {
-            self.push(Instruction::GreaterOrEqual, pos);
-        }
-        self.jump_if_false("out-of-for", pos);
-
         // push registers
         self.push(Instruction::PushRegisters, pos);
 
@@ -154,9 +143,6 @@ impl InstructionGenerator {
         self.push(Instruction::CopyDToB, pos);
         self.push(Instruction::Plus, pos);
         self.store_counter(counter_var_name, pos);
-
-        // back to loop
-        self.jump(loop_label, pos);
     }
 
     pub fn generate_do_loop_instructions(&mut self, do_loop: DoLoop, pos: Position) {
